@@ -147,5 +147,37 @@ PROPS["C04"] = {
             "fields, shuffled order) and a struct with no matching field; Skip on the full codec.",
     "trusted": CODEC_TRUST,
 }
+PROPS["C10"] = {
+    "lean_modules": ["AvroModel.Props.C10"],
+    "required_theorems": ["bank_inv", "step_inv", "run_inv", "alloc_zeroed", "alloc_disjoint", "step_frame", "string_stable",
+                          "toString_content", "toString_disjoint", "close_other_bank", "close_other_bank_str",
+                          "delivered_stable", "delivered_string_stable", "no_block_alias", "runChecked_sound"],
+    "harness": ["C10"],
+    "level_text": "Proof over the bank state machine (AvroModel/Bank.lean: per-type arenas with find-or-append, growth to a fresh array without "
+                  "copying, typedmemclr, the append-only string arena with Go append growth, Close resetting lengths on the same arrays, "
+                  "sync.Pool as a nondeterministic choice, a heap of cells, handles tagged (bank, epoch)): for every finite history of "
+                  "get/alloc/toString/store/close over any number of banks that obeys the documented ownership discipline, every pool choice, "
+                  "every growth capacity, no step faults and an invariant holds (induction over the history) from which: live pointers are "
+                  "pairwise different cells and live strings disjoint byte ranges; every new allocation is zero and disjoint from everything "
+                  "live; a cell / string that is live at the end of any continuation holds what it held when delivered unless stored through "
+                  "that very pointer; operations on other banks (allocate, close, reuse from the pool) change nothing. Provenance of decoded "
+                  "data (string -> bank arena, []byte/slice backing/map -> fresh heap, pointer targets -> bank) never is the block buffer or "
+                  "the input (table-level theorem). Tie: (a) random operation sequences over several read buffers and banks executed against the "
+                  "real NewReadBuf/Alloc/NextAsString/ExtractResourceBank/ResourceBank.Alloc/ToString/Close (GC off, one goroutine) and replayed "
+                  "through the Lean step function: every returned address (array, index, capacity), every string (array, offset) and every pool "
+                  "decision is compared with the model, and zeroing / non-overlap / unchanged contents of all live handles are judged after every "
+                  "operation; (b) multi-block files of all three codecs (strings, bytes, nested slices, maps, pointers) read with a retaining "
+                  "callback, random banks closed, all harness-owned buffers overwritten, pool churned, retained records compared.",
+    "level_note": "Trusted: Lean kernel; the tie is differential replay, not a translation of buffer.go; Go allocator returns memory disjoint from "
+                  "reachable objects and sync.Pool returns only objects that were Put (the model's Allowed for get); provenance table is hand-written "
+                  "from the Read/New methods and checked only by the file-retention runs; concurrency of the pool is out of scope here (C12).",
+    "rule": "Bank sequences from one PRNG: 1-4 read buffers, 1-3 of 8 Go types per case (sizes 1..32 bytes, with and without pointers) so that arenas "
+            "fill and grow, string lengths {0,1,3,8,40,200}, weighted mix of alloc/string/extract/close/direct-bank use/re-store/new buffer, "
+            "5..125 operations (thorough: ..305). File cases: codec x block size {64,300,1000,4000} x 1..40 records x close probability {0,30,60,100}%.",
+    "trusted": ["Go runtime allocator and sync.Pool semantics (fresh memory is disjoint from reachable memory; Get returns New() or a Put object)",
+                "reflect read-only access to the unexported fields ReadBuf.rb, ResourceBank.sData/types used by the harness to observe capacities and bank identity"],
+    "assumptions": ["ownership discipline of the caller: a bank is used and closed only between the pool handing it out and its Close; no writes through dead handles",
+                    "the growth policy of Alloc (max(16, 2*cap)) is a parameter: theorems hold for every capacity above the old one"],
+}
 
 NOT_APPLICABLE = {}
